@@ -244,8 +244,16 @@ def heap (j : Json) : Except String Json := do
       outs := outs.push (Json.mkObj [])
   return Json.mkObj [("outs", Json.arr outs)]
 
+/-- `c05.b64`: the model's text of a (small) byte string — a 3-aligned window or the tail of a payload of any size
+(`C05_codec_window`, `C05_codec_suffix`) — and whether the model's decoder restores it -/
+def b64 (j : Json) : Except String Json := do
+  let bs ← natArr j "bytes"
+  let t := b64enc bs
+  return Json.mkObj [("text", jStr t), ("back", Json.bool (b64dec t == some bs))]
+
 def handle (op : String) (j : Json) : Option (Except String Json) :=
   match op with
+  | "c05.b64" => some (b64 j)
   | "c05.rt" => some (rt j)
   | "c05.deser" => some (deser j)
   | "c05.cell" => some (cell j)
